@@ -5,8 +5,8 @@
 //
 // Scenario = block tree (<= 2 blocks per round, R rounds, every block a real empty block on top of
 // its parent's real state) x which blocks their round object lists as notarized (all; all but one)
-// x schedule of finalizeRound calls (rounds 1..R+3 ascending: each once / each twice / one
-// skipped) x configured "LFB ticket ahead" (5 as deployed, 2 to reach the back-walk cap).
+// x schedule of finalizeRound calls (rounds 1..R+3 ascending: each once; for the full lists also
+// each twice / one skipped) x configured "LFB ticket ahead" (5 as deployed, 2 to reach the back-walk cap).
 //
 // Oracle (from the statement): every block handed to BlockStateHandler.UpdateFinalizedBlock (i.e.
 // every newly finalized block) must descend from the latest finalized block in force at that
@@ -49,6 +49,7 @@ type c36FinResult struct {
 	Violations []c36FinViolation `json:"violations"`
 	Samples    []map[string]any  `json:"samples"`
 	Info       map[string]any    `json:"info"`
+	seen       map[string]bool
 }
 
 type c36FinViolation struct {
@@ -73,7 +74,7 @@ func c36Finalize(run *ev.Run) {
 	run.Bounds["finalize.rounds"] = R
 	run.Bounds["finalize.trees"] = len(c36Trees(R))
 	run.Bounds["finalize.round_lists"] = "all blocks listed as notarized; each single block missing from its round's list"
-	run.Bounds["finalize.schedules"] = fmt.Sprintf("finalizeRound(1..%d) ascending: each once; each twice; one round skipped (for the full lists)", R+3)
+	run.Bounds["finalize.schedules"] = fmt.Sprintf("finalizeRound(1..%d) ascending: each once; for the full lists also each twice and each single round skipped", R+3)
 	run.Bounds["finalize.lfb_ticket_ahead"] = aheads
 	type job struct{ ahead, shard int }
 	var jobs []job
@@ -84,6 +85,7 @@ func c36Finalize(run *ev.Run) {
 	}
 	results := make([]*c36FinResult, len(jobs))
 	errs := make([]error, len(jobs))
+	capped := make([]string, len(jobs))
 	var wg sync.WaitGroup
 	for i, j := range jobs {
 		wg.Add(1)
@@ -94,32 +96,53 @@ func c36Finalize(run *ev.Run) {
 			cmd := exec.CommandContext(ctx, bin, "c36-finalize-worker", strconv.Itoa(R), strconv.Itoa(j.ahead), strconv.Itoa(j.shard), strconv.Itoa(shards))
 			cmd.Stderr = os.Stderr
 			out, err := cmd.Output()
-			if err != nil {
+			timedOut := ctx.Err() != nil
+			if err != nil && !timedOut {
 				errs[i] = fmt.Errorf("worker ahead=%d shard=%d: %v", j.ahead, j.shard, err)
 				return
 			}
-			// the report is the last line starting with RESULT
+			// violations are streamed as they are found (VIOL lines); the report is the RESULT line
+			r := &c36FinResult{}
+			complete := false
 			sc := bufio.NewScanner(strings.NewReader(string(out)))
 			sc.Buffer(make([]byte, 1<<20), 1<<30)
 			for sc.Scan() {
-				if l := sc.Text(); strings.HasPrefix(l, "RESULT ") {
-					r := &c36FinResult{}
+				l := sc.Text()
+				switch {
+				case strings.HasPrefix(l, "VIOL "):
+					v := c36FinViolation{}
+					if json.Unmarshal([]byte(l[5:]), &v) == nil {
+						r.Violations = append(r.Violations, v)
+					}
+				case strings.HasPrefix(l, "RESULT "):
+					vs := r.Violations
 					if e := json.Unmarshal([]byte(l[7:]), r); e != nil {
 						errs[i] = e
 						return
 					}
-					results[i] = r
+					r.Violations = vs
+					complete = true
 				}
 			}
-			if results[i] == nil {
-				errs[i] = fmt.Errorf("worker ahead=%d shard=%d printed no result", j.ahead, j.shard)
+			if !complete {
+				if !timedOut {
+					errs[i] = fmt.Errorf("worker ahead=%d shard=%d printed no result", j.ahead, j.shard)
+					return
+				}
+				capped[i] = fmt.Sprintf("finalize worker ahead=%d shard=%d/%d did not finish within its time budget", j.ahead, j.shard, shards)
 			}
+			results[i] = r
 		}(i, j)
 	}
 	wg.Wait()
 	for _, e := range errs {
 		if e != nil {
 			ev.Fatal("C36 finalize: %v", e)
+		}
+	}
+	for _, c := range capped {
+		if c != "" {
+			run.Capped(c)
 		}
 	}
 	var viols []c36FinViolation
@@ -149,7 +172,7 @@ func c36Finalize(run *ev.Run) {
 	run.Extra["finalize.scenarios"] = scenarios
 	run.Extra["finalize.blocks_finalized"] = finalized
 	run.Extra["finalize.rollbacks_observed"] = rollbacks
-	if finalized == 0 {
+	if finalized == 0 && run.Exhaustive {
 		ev.Fatal("C36 finalize: no block was ever finalized (vacuous)")
 	}
 }
@@ -231,8 +254,9 @@ func c36FinalizeWorker() {
 				once = append(once, r)
 				twice = append(twice, r, r)
 			}
-			scheds = append(scheds, once, twice)
+			scheds = append(scheds, once)
 			if mi == 0 {
+				scheds = append(scheds, twice)
 				for skip := 1; skip <= maxCall; skip++ {
 					var s []int
 					for r := 1; r <= maxCall; r++ {
@@ -318,8 +342,18 @@ func c36RunScenario(w *world.World, bsh *c36BSH, t c36Tree, ti, mask int, sched 
 	replay := map[string]any{"parents": t.Parent, "rounds": t.Round, "listed_mask": mask, "schedule": sched, "lfb_ticket_ahead": ahead}
 	var trace []string
 	viol := func(key, what string) {
-		res.Violations = append(res.Violations, c36FinViolation{Order: ti*1000 + len(sched), Key: "C36:finalizeRound:" + key,
-			What: fmt.Sprintf("tree %v lists %s schedule %v ahead=%d: %s; trace: %s", t, c36MaskNames(mask, len(t.Parent)-1), sched, ahead, what, strings.Join(trace, " ")), Replay: replay})
+		k := "C36:finalizeRound:" + key
+		if res.seen == nil {
+			res.seen = map[string]bool{}
+		}
+		if res.seen[k] {
+			return // one (the first, smallest) case per key and worker
+		}
+		res.seen[k] = true
+		v := c36FinViolation{Order: ti*1000 + len(sched), Key: k,
+			What: fmt.Sprintf("tree %v lists %s schedule %v ahead=%d: %s; trace: %s", t, c36MaskNames(mask, len(t.Parent)-1), sched, ahead, what, strings.Join(trace, " ")), Replay: replay}
+		data, _ := json.Marshal(v)
+		fmt.Println("VIOL " + string(data))
 	}
 	cur := 0 // tree index of the LFB the harness believes in force
 	for _, r := range sched {
